@@ -44,3 +44,22 @@ func (rr ReflectRoute) TraverseToValue(v reflect.Value) reflect.Value {
 	}
 	return v
 }
+
+// TraverseToValueAllocating is like TraverseToValue, but allocates any nil
+// (embedded) pointer it has to pass through, so that the field can be set.
+// It returns the zero Value if such a pointer cannot be set.
+func (rr ReflectRoute) TraverseToValueAllocating(v reflect.Value) reflect.Value {
+	for _, i := range rr {
+		if v.Kind() == reflect.Ptr {
+			if v.IsNil() {
+				if !v.CanSet() {
+					return reflect.Value{}
+				}
+				v.Set(reflect.New(v.Type().Elem()))
+			}
+			v = v.Elem()
+		}
+		v = v.Field(i)
+	}
+	return v
+}
